@@ -76,8 +76,19 @@ func checkC14(w *Worker) {
 			}
 			text, _ := renderFile(x, f, renderOpts{})
 			global := []string{"--date-format", format}
+			env := map[string]string{}
+			extraFiles := map[string]string{}
 			if fi == 0 && x.Choose(2, "config:format-flag-absent") == 1 {
 				global = nil
+			}
+			// where the date format comes from: the flag, HR_DATE_FORMAT, or the configuration file (a deviation of class "src")
+			switch x.Choose(3, "src:format-source") {
+			case 1:
+				global = nil
+				env["HR_DATE_FORMAT"] = format
+			case 2:
+				global = []string{"--config", "fmt.cfg"}
+				extraFiles["fmt.cfg"] = "[Global]\nDateFormat=" + format + "\n"
 			}
 			selected := f
 			if period == 1 {
@@ -101,7 +112,7 @@ func checkC14(w *Worker) {
 				}
 			}
 			x.Case(text+"|"+format+fmt.Sprint(period), len(f) > 0)
-			c1 := appCase{Args: append(append([]string{}, global...), "print"), Files: map[string]string{"food.yaml": "", "log.yaml": text}}
+			c1 := appCase{Args: append(append([]string{}, global...), "print"), Files: withFiles(map[string]string{"food.yaml": "", "log.yaml": text}, extraFiles), Env: env}
 			p1 := runApp(c1)
 			x.Obs(p1.Key())
 			x.Sample(map[string]interface{}{"cmd": c1.shell(), "printed": p1.Stdout})
@@ -112,7 +123,7 @@ func checkC14(w *Worker) {
 				return
 			}
 			// read back with the tool itself, same options
-			c2 := appCase{Args: c1.Args, Files: map[string]string{"food.yaml": "", "log.yaml": p1.Stdout}}
+			c2 := appCase{Args: c1.Args, Files: withFiles(map[string]string{"food.yaml": "", "log.yaml": p1.Stdout}, extraFiles), Env: env}
 			p2 := runApp(c2)
 			if p2.Failed || p2.Panic != "" {
 				x.Violate("C14|"+fmtName+"|printed-log-unreadable", fmt.Sprintf("`%s` printed\n%s\nand cannot read it back under the same options: %s", c1.shell(), p1.Stdout, p2.String()), rep)
@@ -172,8 +183,8 @@ func checkC14(w *Worker) {
 				return
 			}
 			// csv log of the printed log = csv log of the original, at two decimals
-			ca := runApp(appCase{Args: append(append([]string{}, global...), "csv", "log"), Files: map[string]string{"food.yaml": "", "log.yaml": text}})
-			cb := runApp(appCase{Args: append(append([]string{}, global...), "csv", "log"), Files: map[string]string{"food.yaml": "", "log.yaml": p1.Stdout}})
+			ca := runApp(appCase{Args: append(append([]string{}, global...), "csv", "log"), Files: withFiles(map[string]string{"food.yaml": "", "log.yaml": text}, extraFiles), Env: env})
+			cb := runApp(appCase{Args: append(append([]string{}, global...), "csv", "log"), Files: withFiles(map[string]string{"food.yaml": "", "log.yaml": p1.Stdout}, extraFiles), Env: env})
 			ra, e1 := parseCSV(ca.Stdout)
 			rb, e2 := parseCSV(cb.Stdout)
 			if ca.Failed || cb.Failed || e1 != nil || e2 != nil || len(ra) != len(rb) {
@@ -195,7 +206,15 @@ func checkC14(w *Worker) {
 	for i := range all {
 		all[i] = i
 	}
-	w.Explore("large-log", ExploreOpts{ShardDepth: 2, Budgets: map[string]int{"layout": 0}}, body(0, []int{0, 3, 5, 13, 20}))
-	w.Explore("names-x-formats-default-layout", ExploreOpts{ShardDepth: 6, Budgets: map[string]int{"layout": 0}}, body(maxRec, all))
-	w.Explore(fmt.Sprintf("layout-dev%d", dev), ExploreOpts{ShardDepth: 6, Budgets: map[string]int{"layout": dev}}, body(1, []int{2, 4}))
+	w.Explore("large-log", ExploreOpts{ShardDepth: 2, Budgets: map[string]int{"layout": 0, "src": 0}}, body(0, []int{0, 3, 5, 13, 20}))
+	w.Explore("names-x-formats-default-layout", ExploreOpts{ShardDepth: 6, Budgets: map[string]int{"layout": 0, "src": 0}}, body(maxRec, all))
+	w.Explore(fmt.Sprintf("layout-dev%d", dev), ExploreOpts{ShardDepth: 6, Budgets: map[string]int{"layout": dev, "src": 0}}, body(1, []int{2, 4}))
+	w.Explore("format-from-flag-env-config", ExploreOpts{ShardDepth: 6, Budgets: map[string]int{"layout": 0}}, body(1, []int{2}))
+}
+
+func withFiles(base, extra map[string]string) map[string]string {
+	for k, v := range extra {
+		base[k] = v
+	}
+	return base
 }
